@@ -1,11 +1,16 @@
-import TaskModel.Output.Model
+import TaskModel.Output.Accept
 import Driver.Util
 /-!
-`output.prefixed <prefix> <n> <chunk>*`                      → `<k> <sink block>*`  (block = "[prefix] line")
+`output.prefixed <prefix> <n> <chunk>*`                        → `<k> <sink write>*`  (one write per line: "[prefix] line")
 `output.group <begin> <end> <errorOnly> <failed> <n> <chunk>*` → `<k> <sink write>*`
-`output.concurrent <w> { p <prefix> <n> <chunk>* | g <begin> <end> <eo> <failed> <n> <chunk>* }* S <m> <sink write>*`
-   → `accept` | `reject <position>`: the sink writes must be an interleaving of the writers' atomic
-   blocks (a prefixed line = the four writes "[", prefix, "] ", line; a group block = one write).
+`output.multi p <prefix> <k> {<n> <chunk>*}^k S <m> <sink write>*`
+`output.multi g <begin> <end> <eo> <failed> <k> {<n> <chunk>*}^k S <m> <sink write>*`
+   → `accept` | `reject`: ONE writer fed by k producers — the sink writes must be what the writer emits for SOME
+   interleaving of the producers' chunk sequences (`acceptsPW`, `acceptsGW`).
+writer := `p <prefix> <n> <chunk>*` | `g <begin> <end> <eo> <failed> <n> <chunk>*` | `r <n> <chunk>*`
+`output.concurrent <w> writer^w S <m> <sink write>*`           → `accept` | `reject`: interleaving of the writers' writes
+`output.exec <t> {t <j> writer^j}^t S <m> <sink write>*`       → `accept` | `reject`: interleaving of the threads' writes
+   (a thread = one task activation: its writers are used one after the other)
 -/
 namespace Driver.Output
 open TaskModel.Output Driver
@@ -21,65 +26,78 @@ def many {α} : Nat → P α → P (List α)
 
 def showList (bs : List Bytes) : String := " ".intercalate (toString bs.length :: bs.map hexBytes)
 
+def chunks : P (List Bytes) := do let n ← nat; many n bytes
+
 def doPrefixed : P String := do
-  let pre ← bytes; let n ← nat; let chunks ← many n bytes
-  let lines := ({ prefix_ := pre } : PW).run chunks
-  pure (showList (lines.map (lineBlock pre)))
+  let pre ← bytes; let cs ← chunks
+  pure (showList (Writer.p pre cs).blocks)
 
 def doGroup : P String := do
-  let b ← bytes; let e ← bytes; let eo ← bool; let failed ← bool; let n ← nat; let chunks ← many n bytes
-  pure (showList (({ begin_ := b, end_ := e, errorOnly := eo } : GW).run chunks failed))
+  let b ← bytes; let e ← bytes; let eo ← bool; let failed ← bool; let cs ← chunks
+  pure (showList (Writer.g b e eo failed cs).blocks)
 
-/-- the atomic blocks (each a list of sink writes) one writer emits -/
-def writerBlocks : P (List (List Bytes)) := do
+def writer : P Writer := do
   let k ← tok
   if k == "p" then do
-    let pre ← bytes; let n ← nat; let chunks ← many n bytes
-    pure ((({ prefix_ := pre } : PW).run chunks).map (fun l => ([[91], pre, [93, 32], l] : List Bytes).filter (· ≠ [])))
+    let pre ← bytes; let cs ← chunks
+    pure (.p pre cs)
   else if k == "g" then do
-    let b ← bytes; let e ← bytes; let eo ← bool; let failed ← bool; let n ← nat; let chunks ← many n bytes
-    pure ((({ begin_ := b, end_ := e, errorOnly := eo } : GW).run chunks failed).map (fun w => [w]))
+    let b ← bytes; let e ← bytes; let eo ← bool; let failed ← bool; let cs ← chunks
+    pure (.g b e eo failed cs)
+  else if k == "r" then do
+    let cs ← chunks
+    pure (.r cs)
   else failure
 
-def isPrefixOf (a b : List Bytes) : Bool :=
-  match a, b with
-  | [], _ => true
-  | _ :: _, [] => false
-  | x :: xs, y :: ys => x == y && isPrefixOf xs ys
-
-/-- pick the first writer whose next block is a prefix of the remaining sink writes -/
-def pick : List (List (List Bytes)) → List Bytes → Option (List (List (List Bytes)) × Nat)
-  | [], _ => none
-  | [] :: rest, sink => (pick rest sink).map (fun (ws, k) => ([] :: ws, k))
-  | (b :: bs) :: rest, sink =>
-    if isPrefixOf b sink then some (bs :: rest, b.length)
-    else (pick rest sink).map (fun (ws, k) => ((b :: bs) :: ws, k))
-
-def accepts : Nat → List (List (List Bytes)) → List Bytes → Nat → Option Nat
-  | 0, _, _, pos => some pos
-  | fuel+1, ws, sink, pos =>
-    if sink.isEmpty then (if ws.all List.isEmpty then none else some pos)
-    else match pick ws sink with
-      | none => some pos
-      | some (ws', k) => accepts fuel ws' (sink.drop k) (pos + k)
-
-def doConcurrent : P String := do
-  let w ← nat
-  let ws ← many w writerBlocks
+def sinkWrites : P (List Bytes) := do
   let s ← tok
   if s != "S" then failure
   let m ← nat
   let sink ← many m bytes
-  match accepts (m + 1) ws (sink.filter (· ≠ [])) 0 with
-  | none => pure "accept"
-  | some pos => pure s!"reject {pos}"
+  pure (sink.filter (· ≠ []))
+
+def verdict (b : Bool) : String := if b then "accept" else "reject"
+
+def doMulti : P String := do
+  let k ← tok
+  if k == "p" then do
+    let pre ← bytes; let n ← nat; let prods ← many n chunks
+    let sink ← sinkWrites
+    let prods := prods.map (fun s => s.filter (· ≠ []))
+    pure (verdict (acceptsPW pre (chunkCount prods + 1) { prefix_ := pre } prods sink))
+  else if k == "g" then do
+    let b ← bytes; let e ← bytes; let eo ← bool; let failed ← bool; let n ← nat; let prods ← many n chunks
+    let sink ← sinkWrites
+    let prods := prods.map (fun s => s.filter (· ≠ []))
+    pure (verdict (acceptsGW { begin_ := b, end_ := e, errorOnly := eo } prods failed sink))
+  else failure
+
+def doConcurrent : P String := do
+  let w ← nat
+  let ws ← many w writer
+  let sink ← sinkWrites
+  pure (verdict (accepts ws sink))
+
+def thread : P (List Writer) := do
+  let t ← tok
+  if t != "t" then failure
+  let j ← nat
+  many j writer
+
+def doExec : P String := do
+  let n ← nat
+  let ts ← many n thread
+  let sink ← sinkWrites
+  pure (verdict (acceptsThreads ts sink))
 
 def handle (op : String) (args : List String) : Option String :=
   let run (p : P String) := match p.run args with | some (r, []) => some r | _ => none
   match op with
   | "output.prefixed" => run doPrefixed
   | "output.group" => run doGroup
+  | "output.multi" => run doMulti
   | "output.concurrent" => run doConcurrent
+  | "output.exec" => run doExec
   | _ => none
 
 end Driver.Output
